@@ -220,6 +220,27 @@ def address_docs(entries=None):
                     yield ('address:%s:%s-%s:%d' % (e[4], quals[0], quals[1], ni), d, {'entry': e, 'valid': True})
 
 
+def mixed_docs():
+    """files holding two interchanges of different maps / versions, in both orders (clean, and with a faulty second set)"""
+    names = ('834.4010.X095.A1.xml', '834.5010.X220.A1.xml', '835.5010.X221.A1.xml', '837.4010.X098.A1.xml')
+    ents = dict((e[4], e) for e in one_entry_per_map())
+    for a in names:
+        for b in names:
+            if a == b or a not in ents or b not in ents:
+                continue
+            d1 = build_ok(ents[a], {}); d2 = build_ok(ents[b], {'sets': 2})
+            if d1 is None or d2 is None:
+                continue
+            d = gen.concat(d1, d2)
+            yield ('mixed:%s+%s' % (a, b), d, {'valid': True})
+            d3 = gen.concat(d1, d2)
+            for i in range(len(d3.segs) - 1, -1, -1):
+                if d3.segs[i][0] == 'ST':
+                    d3.segs[i + 1] = d3.segs[i + 1] + [''] * 40 + ['A']
+                    break
+            yield ('mixed:%s+%s:bad-last-set' % (a, b), d3, {'valid': False})
+
+
 def ta1_docs(entries=None):
     """interchanges that ask for a TA1 (ISA14 = 1): 1..3 interchanges, every non-empty subset of them asking"""
     ents = entries or [e for e in one_entry_per_map() if e[4] in ('834.4010.X095.A1.xml', '835.5010.X221.A1.xml')]
